@@ -1,6 +1,8 @@
 package rules
 
 import (
+	"fmt"
+
 	"gmcheck/core"
 
 	"golang.org/x/tools/go/ssa"
@@ -110,6 +112,45 @@ func init() {
 func init() {
 	Props["XSTRIDX"] = PropDef{Explanation: "debug", Run: func(c *Ctx) []core.Ob {
 		obs := c.StringIndexGuards(func(*ssa.Function) bool { return true })
+		obs = append(obs, c.StringVarIndexGuards(func(*ssa.Function) bool { return true })...)
 		return append(obs, c.LenMinusGuards(func(*ssa.Function) bool { return true })...)
 	}}
+}
+
+func init() {
+	Props["XDIV"] = PropDef{Explanation: "debug", Run: func(c *Ctx) []core.Ob {
+		var obs []core.Ob
+		t := c.TLG()
+		for _, name := range []string{"level.calcBitStorageSize", "level.(*BitStorage).Fix", "level.(*PaletteContainer).ReadFrom", "level.(biomesCfg).bits", "level.(statesCfg).bits"} {
+			fn := c.Fn(name)
+			if fn == nil {
+				continue
+			}
+			seen := map[string]string{}
+			t.Probe(fn, func(in ssa.Instruction, eval func(ssa.Value) AV, _ func(string) (AV, bool)) {
+				switch x := in.(type) {
+				case *ssa.BinOp:
+					seen[x.Name()+" "+x.String()] = "X=" + eval(x.X).String() + " Y=" + eval(x.Y).String()
+				case *ssa.Return:
+					for _, r := range x.Results {
+						seen["ret "+r.Name()] = eval(r).String()
+					}
+				case *ssa.Call:
+					for i, a := range x.Common().Args {
+						if isIntegerType(a.Type(), t.sizesOf(fn)) {
+							seen[fmt.Sprintf("call %s arg%d", x.String(), i)] = eval(a).String()
+						}
+					}
+				}
+			})
+			for k, v := range seen {
+				obs = append(obs, core.Ob{Rule: "DBG", Key: name + " " + k, Got: v, Status: core.OK})
+			}
+		}
+		return obs
+	}}
+}
+
+func init() {
+	Props["XBSINV"] = PropDef{Explanation: "debug", Run: func(c *Ctx) []core.Ob { return c.BitWidthInverse() }}
 }
